@@ -140,6 +140,14 @@ func runRecCase(c RecCase, o *vt.Obs) *vt.Failure {
 					vt.Inconclusive(fmt.Sprintf("C14 restore into %q timed out with and without reconciliation rounds: %v / %v", call.Name, rerr, cerr))
 					return nil
 				}
+				if live[call.Name] == 0 {
+					// the name was new: make it new again, so that the third run meets what the first one met
+					if derr := e.DeleteTable(call.Name); derr != nil {
+						finish()
+						vt.Inconclusive(fmt.Sprintf("C14 control run: delete of %q: %v", call.Name, derr))
+						return nil
+					}
+				}
 				if rerr2 := doRestore(); rerr2 != nil {
 					finish()
 					return vt.Failf(prop+"/restore-broken-by-reconciliation", i, "restore into %q (catalogued before: %v) fails while reconciliation rounds run (%v), works with the reconciler held still, and fails again with the rounds running (%v): the rounds do not leave the catalogued recovery shard alone", call.Name, live[call.Name] != 0, rerr, rerr2)
